@@ -40,7 +40,7 @@ def path_save(ctx, job, box):
                       sp_charsets='fixed', charset='symsel')
     else:
         run = GridRun(ctx, box, None, None, buffer='one', tabstops=1, savepoints=spopt,
-                      sp_charsets='fixed', charset='symsel', geom_max=(140, 40))
+                      sp_charsets='fixed', charset='symsel', geom_max=(300, 300))
     L = run.L
     if via == 'api':
         run.call('save_cursor')
@@ -85,7 +85,7 @@ def path_restore(ctx, job, box):
                       charset='symsel')
     else:
         run = GridRun(ctx, box, None, None, buffer='one', tabstops=1, savepoints=spopt, sp_charsets='fixed',
-                      charset='symsel', geom_max=(140, 40))
+                      charset='symsel', geom_max=(300, 300))
     L = run.L
     ss = run.ss
     if via == 'api':
@@ -186,8 +186,8 @@ def jobs(tier):
 META = {
     'functions': ['save_cursor', 'restore_cursor', 'set_mode', 'reset_mode', 'cursor_position', 'ensure_hbounds',
                   'ensure_vbounds', 'ParserListener::escape_dispatch', 'every other operation of the sweep (stack untouched)'],
-    'bounds': 'symbolic geometry 1..=140 x 1..=40 and 2x2 (thorough +3x2) grids; stack depth 0..2 (plus deep stacks whose lower entries share one symbolic value) with symbolic saved '
-              'positions (0..=200, i.e. outside the screen too), renditions, visibility, charset triple, DECOM/DECAWM '
+    'bounds': 'symbolic geometry 1..=300 x 1..=300 and 2x2 (thorough +3x2) grids; stack depth 0..2 (plus deep stacks whose lower entries share one symbolic value) with symbolic saved '
+              'positions (0..=400, i.e. outside the screen too), renditions, visibility, charset triple, DECOM/DECAWM '
               'flags; current margins, modes, cursor symbolic',
     'outside': 'stack depths other than 0..2 and the listed deep ones (quick 15,16,17,64,255,256; thorough 27 depths up '
                'to 1025; entries below the top are shown untouched, so other depths follow by induction unless the code '
